@@ -25,7 +25,7 @@ RULE = ('case = device tables of 0..12 entries (all types), CRC values incl. 0, 
         'file, offset/garble) evaluated.')
 ASSUMPTIONS = ['a crash during the cache write leaves a prefix of the intended file content',
                'cache files that are valid JSON but semantically wrong are outside the statement']
-REQUIRED = ['mon.two_firmwares_connecting_at_once_on_one_cache_directory', 'mon.connects_with_a_parameter_notification_before_the_tables', 'mon.cached_connects', 'mon.cache_hits', 'mon.truncation_offsets', 'mon.truncated_connects',
+REQUIRED = ['mon.files_with_json_that_is_no_table', 'mon.two_firmwares_connecting_at_once_on_one_cache_directory', 'mon.connects_with_a_parameter_notification_before_the_tables', 'mon.cached_connects', 'mon.cache_hits', 'mon.truncation_offsets', 'mon.truncated_connects',
             'mon.garbled_files', 'mon.crc_collision_cases', 'mon.ro_dir_audited', 'mon.audit_events_seen',
             'mon.files_vanished_before_connect', 'mon.files_with_a_field_missing',
             'mon.crc_collision_with_one_empty_table', 'mon.store_load_round_trips',
@@ -596,6 +596,18 @@ def run(desc, ctx):
                 judge_conn(ob, 'garbled-file')
                 ctx.count('mon.garbled_files')
                 ctx.nontrivial((core.h64(prof), 'garble', f, core.h64(bytes(data))))
+        # ---- files that are valid JSON but hold no table (written by something else, or an empty editor save)
+        for f in files[:1] if desc['seed'] % 2 else files[-1:]:
+            for data in (b'[1]', b'7', b'null', b'"x"', b'{"a": 1}', b'{"a": {"b": 2}}', b'[]'):
+                d2 = os.path.join(base, 'rw_j')
+                shutil.rmtree(d2, ignore_errors=True)
+                shutil.copytree(scratch, d2)
+                with open(os.path.join(d2, f), 'wb') as fh:
+                    fh.write(data)
+                ob = connect_once(prof, d2, None, desc['seed'] + 123)
+                judge_conn(ob, 'file-holds-json-that-is-no-table')
+                ctx.count('mon.files_with_json_that_is_no_table')
+                ctx.nontrivial((core.h64(prof), 'json-no-table', f, data))
         ctx.sample({'config': cfg, 'crc_mode': desc['crc'], 'nlog': desc['nlog'], 'nparam': desc['nparam'],
                     'files': {f: len(content[f]) for f in files}, 'items_requested_with_cache':
                     [ob1['log_items_requested'], ob1['param_items_requested']],
